@@ -27,7 +27,7 @@ theorem gen_coordinator_stops : Generated.C10.refusalStops = true ∧ Generated.
 /-- a handler body, from the process constructor on: Execute follows the constructor directly (no return in between,
     which would leave a constructor-held lock behind) and nothing stops the process afterwards (Execute already has) -/
 def handlerShape : List String → Bool
-  | "new" :: "execute" :: rest => !rest.contains "stop" && !rest.contains "new" && !rest.contains "execute" && !rest.any (·.startsWith "?")
+  | "new" :: "execute" :: rest => rest.all (· == "ret")
   | _ => false
 
 /-- the three production entry points are "constructor, Execute, return": what `handlerFrom false` models -/
